@@ -65,6 +65,28 @@ Proof.
     + destruct (has_bound_kw (c_mult c) b); [|reflexivity]. cbn [forallb v_ok]. rewrite Hft. reflexivity.
   - destruct inl; [|reflexivity]. exact (array_validators_ok ft fn jn _ _ _ Hft _ 0 eq_refl).
 Qed.
+
+(* the per-field validators never include the composite one *)
+Definition is_anyof (v : validator) : bool := match v with VAnyOf _ => true | _ => false end.
+
+Lemma array_validators_no_anyof fn jn mn mx : forall t d, existsb is_anyof (array_validators fn jn mn mx d t) = false.
+Proof.
+  fix IH 1. intros t d. destruct t as [| | | | | | |?|inl e|?|? ? ?|? ? ?|? ? ? ?|?]; try reflexivity.
+  destruct inl; [|reflexivity]. pose proof (IH e (S d)) as IHe. clear IH.
+  assert (Hhead : existsb is_anyof (if negb (mn =? 0) || negb (mx =? 0) then [VArray fn jn d mn mx] else []) = false)
+    by (destruct (negb (mn =? 0) || negb (mx =? 0)); reflexivity).
+  destruct e; cbn [array_validators]; try (rewrite existsb_app, Hhead; exact IHe). reflexivity.
+Qed.
+
+Lemma field_validators_no_anyof fn jn c b : forall t nl, existsb is_anyof (field_validators fn jn c b t nl) = false.
+Proof.
+  fix IH 1. intros t nl. destruct t as [| | | | | | |u|inl e|?|? ? ?|? ? ?|? ? ? ?|?]; cbn [field_validators]; try reflexivity.
+  - destruct (has_string_kw c); reflexivity.
+  - destruct (has_bound_kw (c_mult c) b); reflexivity.
+  - destruct (has_bound_kw (c_mult c) b); reflexivity.
+  - exact (IH u true).
+  - destruct inl; [|reflexivity]. apply array_validators_no_anyof.
+Qed.
 End GenWf.
 
 Section GenTop.
@@ -121,8 +143,18 @@ Fixpoint wf_s (chk : (str -> option gty) -> validator -> bool) (t : gty) : bool 
   | TStruct _ fs plan =>
       (fix go (fs : list field) : bool := match fs with [] => true | mkField _ _ _ ty _ _ :: r => wf_s chk ty && go r end) fs &&
       names_ok fs &&
-      match plan with Some vs => forallb (chk (ft_struct fs)) vs && addl_ok fs vs | None => true end
-  | TNamed _ u plan => wf_s chk u && match plan with Some vs => forallb (chk (ft_named u)) vs | None => true end
+      match plan with
+      | Some vs =>
+          forallb (chk (ft_struct fs)) vs && addl_ok fs vs &&
+          (fix gov (vs : list validator) : bool :=
+             match vs with
+             | [] => true
+             | VAnyOf bs :: r => (fix gob (bs : list gty) : bool := match bs with [] => true | b :: r' => wf_s chk b && gob r' end) bs && gov r
+             | _ :: r => gov r
+             end) vs
+      | None => true
+      end
+  | TNamed _ u plan => wf_s chk u && match plan with Some vs => forallb (chk (ft_named u)) vs && negb (existsb is_anyof vs) | None => true end
   | TEnum _ c _ _ => wf_s chk c
   | TRef d => match lookup d env with Some _ => true | None => false end
   | _ => true
@@ -131,9 +163,25 @@ Fixpoint wf_s (chk : (str -> option gty) -> validator -> bool) (t : gty) : bool 
 Definition fields_s chk : list field -> bool :=
   fix go (fs : list field) : bool := match fs with [] => true | mkField _ _ _ ty _ _ :: r => wf_s chk ty && go r end.
 
+Definition list_s chk : list gty -> bool :=
+  fix gob (bs : list gty) : bool := match bs with [] => true | b :: r' => wf_s chk b && gob r' end.
+Definition branches_s chk : list validator -> bool :=
+  fix gov (vs : list validator) : bool :=
+    match vs with
+    | [] => true
+    | VAnyOf bs :: r => list_s chk bs && gov r
+    | _ :: r => gov r
+    end.
+
 Lemma wf_s_struct chk n fs plan :
-  wf_s chk (TStruct n fs plan) = fields_s chk fs && names_ok fs && match plan with Some vs => forallb (chk (ft_struct fs)) vs && addl_ok fs vs | None => true end.
+  wf_s chk (TStruct n fs plan) = fields_s chk fs && names_ok fs && match plan with Some vs => forallb (chk (ft_struct fs)) vs && addl_ok fs vs && branches_s chk vs | None => true end.
 Proof. reflexivity. Qed.
+
+Lemma branches_s_none chk vs : existsb is_anyof vs = false -> branches_s chk vs = true.
+Proof.
+  induction vs as [|v r IH]; [reflexivity|]. cbn [existsb]. intros H. apply orb_false_iff in H. destruct H as [H1 H2].
+  destruct v; cbn [branches_s]; try exact (IH H2). discriminate.
+Qed.
 
 (* strict implies the well-formedness C19_total asks for *)
 Lemma wf_strict_wf : forall t, wf_s (WfP.v_ok env) t = true -> wf_ty env t = true.
@@ -143,7 +191,13 @@ Proof.
     apply andb_true_iff. split; [apply andb_true_iff; split; [|exact Hn]|].
     + clear Hp Hn. induction fs as [|[fn fj fo ty fd fa] r IHr]; [reflexivity|].
       apply andb_true_iff in Hf. destruct Hf as [H1 H2]. apply andb_true_iff. split; [exact (IH ty H1)|exact (IHr H2)].
-    + destruct n; [reflexivity|]. exact Hp.
+    + destruct n; [reflexivity|]. destruct plan as [vs|]; [|reflexivity].
+      apply andb_true_iff in Hp. destruct Hp as [Hp Hb]. apply andb_true_iff. split; [exact Hp|].
+      clear Hp Hf Hn. induction vs as [|v r IHr]; [reflexivity|].
+      destruct v; try exact (IHr Hb).
+      apply andb_true_iff in Hb. destruct Hb as [Hb1 Hb2]. apply andb_true_iff. split; [|exact (IHr Hb2)].
+      clear Hb2 IHr. induction branches as [|b0 br IHb]; [reflexivity|].
+      apply andb_true_iff in Hb1. destruct Hb1 as [H1 H2]. apply andb_true_iff. split; [exact (IH b0 H1)|exact (IHb H2)].
   - intros H. apply andb_true_iff in H. destruct H as [H1 H2]. apply andb_true_iff. split; [exact (IH u H1)|exact H2].
   - exact (IH c).
   - intros H; exact H.
@@ -159,16 +213,40 @@ Fixpoint F (t : gty) : bool :=
   | TPtr u | TSlice _ u | TMap u => F u
   | TStruct _ fs plan =>
       (fix go (fs : list field) : bool := match fs with [] => true | mkField _ _ _ ty _ _ :: r => F ty && go r end) fs &&
-      match plan with Some vs => negb (names_ok fs) || forallb (v_four env (ft_struct fs)) vs | None => true end
-  | TNamed _ u plan => F u && match plan with Some vs => forallb (v_four env (ft_named u)) vs | None => true end
+      match plan with
+      | Some vs =>
+          (negb (names_ok fs) || forallb (v_four env (ft_struct fs)) vs) &&
+          (fix gov (vs : list validator) : bool :=
+             match vs with
+             | [] => true
+             | VAnyOf bs :: r => (fix gob (bs : list gty) : bool := match bs with [] => true | b :: r' => F b && gob r' end) bs && gov r
+             | _ :: r => gov r
+             end) vs
+      | None => true
+      end
+  | TNamed _ u plan => F u && match plan with Some vs => forallb (v_four env (ft_named u)) vs && negb (existsb is_anyof vs) | None => true end
   | TEnum _ c _ _ => F c
   | _ => true
   end.
 Definition fields_F : list field -> bool :=
   fix go (fs : list field) : bool := match fs with [] => true | mkField _ _ _ ty _ _ :: r => F ty && go r end.
+Definition list_F : list gty -> bool :=
+  fix gob (bs : list gty) : bool := match bs with [] => true | b :: r' => F b && gob r' end.
+Definition branches_F : list validator -> bool :=
+  fix gov (vs : list validator) : bool :=
+    match vs with
+    | [] => true
+    | VAnyOf bs :: r => list_F bs && gov r
+    | _ :: r => gov r
+    end.
 Lemma F_struct n fs plan :
-  F (TStruct n fs plan) = fields_F fs && match plan with Some vs => negb (names_ok fs) || forallb (v_four env (ft_struct fs)) vs | None => true end.
+  F (TStruct n fs plan) = fields_F fs && match plan with Some vs => (negb (names_ok fs) || forallb (v_four env (ft_struct fs)) vs) && branches_F vs | None => true end.
 Proof. reflexivity. Qed.
+Lemma branches_F_none vs : existsb is_anyof vs = false -> branches_F vs = true.
+Proof.
+  induction vs as [|v r IH]; [reflexivity|]. cbn [existsb]. intros H. apply orb_false_iff in H. destruct H as [H1 H2].
+  destruct v; cbn [branches_F]; try exact (IH H2). discriminate.
+Qed.
 
 Notation R := (wf_s env (v_resid env)).
 Notation W := (wf_s env (WfP.v_ok env)).
@@ -184,11 +262,21 @@ Proof.
       change ((fix go (fs : list field) : bool := match fs with [] => true | mkField _ _ _ ty _ _ :: r => F ty && go r end) r) with (fields_F r).
       rewrite IHr. destruct (R ty), (F ty), (fields_s env (v_resid env) r), (fields_F r); reflexivity. }
     rewrite Hf. destruct plan as [vs|].
-    + rewrite forallb_split. destruct (fields_s env (v_resid env) fs), (fields_F fs), (names_ok fs), (forallb (v_resid env (ft_struct fs)) vs),
-        (forallb (v_four env (ft_struct fs)) vs), (addl_ok fs vs); reflexivity.
+    + assert (Hb : branches_s env (WfP.v_ok env) vs = branches_s env (v_resid env) vs && branches_F vs).
+      { clear Hf. induction vs as [|v r IHr]; [reflexivity|]. destruct v; try exact IHr.
+        cbn [branches_s branches_F]. rewrite IHr.
+        assert (Hl : list_s env (WfP.v_ok env) branches = list_s env (v_resid env) branches && list_F branches).
+        { induction branches as [|b0 br IHb]; [reflexivity|]. cbn [list_s list_F]. rewrite (IH b0).
+          change ((fix gob (bs : list gty) : bool := match bs with [] => true | b :: r' => wf_s env (WfP.v_ok env) b && gob r' end) br) with (list_s env (WfP.v_ok env) br).
+          change ((fix gob (bs : list gty) : bool := match bs with [] => true | b :: r' => wf_s env (v_resid env) b && gob r' end) br) with (list_s env (v_resid env) br).
+          change ((fix gob (bs : list gty) : bool := match bs with [] => true | b :: r' => F b && gob r' end) br) with (list_F br).
+          rewrite IHb. destruct (R b0), (F b0), (list_s env (v_resid env) br), (list_F br); reflexivity. }
+        rewrite Hl. destruct (list_s env (v_resid env) branches), (list_F branches), (branches_s env (v_resid env) r), (branches_F r); reflexivity. }
+      rewrite forallb_split, Hb. destruct (fields_s env (v_resid env) fs), (fields_F fs), (names_ok fs), (forallb (v_resid env (ft_struct fs)) vs),
+        (forallb (v_four env (ft_struct fs)) vs), (addl_ok fs vs), (branches_s env (v_resid env) vs), (branches_F vs); reflexivity.
     + destruct (fields_s env (v_resid env) fs), (fields_F fs), (names_ok fs); reflexivity.
   - cbn [wf_s F]. rewrite (IH u). destruct plan as [vs|].
-    + rewrite forallb_split. destruct (R u), (F u), (forallb (v_resid env (ft_named u)) vs), (forallb (v_four env (ft_named u)) vs); reflexivity.
+    + rewrite forallb_split. destruct (R u), (F u), (forallb (v_resid env (ft_named u)) vs), (forallb (v_four env (ft_named u)) vs), (existsb is_anyof vs); reflexivity.
     + destruct (R u), (F u); reflexivity.
   - cbn [wf_s F]. exact (IH c).
   - cbn [wf_s F]. destruct (lookup d env); reflexivity.
@@ -222,17 +310,22 @@ Qed.
 
 Definition info_ok (i : finfo) : Prop :=
   F (f_ty (fst (fst i))) = true /\
-  forall ft, ft (f_name (fst (fst i))) = Some (f_ty (fst (fst i))) -> forallb (v_four env ft) (snd i) = true.
+  (forall ft, ft (f_name (fst (fst i))) = Some (f_ty (fst (fst i))) -> forallb (v_four env ft) (snd i) = true) /\
+  existsb is_anyof (snd i) = false.
 
 Lemma make_field_ok c self fname k p ty bp : good ty -> info_ok (make_field defs c self fname k p ty bp).
 Proof.
   intros [Ht Hf]. unfold make_field. destruct (c_default (s_con p)) as [dv|].
-  - split; [exact Hf|]. cbn [fst snd f_name f_ty]. intros ft Hft. cbn [forallb v_four]. apply four_of_ok. exact (field_validators_ok env ft _ _ _ _ _ Hft Ht).
+  - split; [exact Hf|]. cbn [fst snd f_name f_ty]. split; [|cbn [existsb is_anyof orb]; apply field_validators_no_anyof].
+    intros ft Hft. cbn [forallb v_four]. apply four_of_ok. exact (field_validators_ok env ft _ _ _ _ _ Hft Ht).
   - destruct (mem k (c_required c)).
-    + split; [exact Hf|]. cbn [fst snd f_name f_ty]. intros ft Hft. apply four_of_ok. exact (field_validators_ok env ft _ _ _ _ _ Hft Ht).
+    + split; [exact Hf|]. cbn [fst snd f_name f_ty]. split; [|apply field_validators_no_anyof].
+      intros ft Hft. apply four_of_ok. exact (field_validators_ok env ft _ _ _ _ _ Hft Ht).
     + destruct (nillable_ty (ref_nillable defs self) ty) eqn:En.
-      * split; [exact Hf|]. cbn [fst snd f_name f_ty]. intros ft Hft. apply four_of_ok. exact (field_validators_ok env ft _ _ _ _ _ Hft Ht).
-      * split; [exact Hf|]. cbn [fst snd f_name f_ty]. intros ft Hft. apply four_of_ok. apply (field_validators_ok env ft _ _ _ _ _ Hft).
+      * split; [exact Hf|]. cbn [fst snd f_name f_ty]. split; [|apply field_validators_no_anyof].
+        intros ft Hft. apply four_of_ok. exact (field_validators_ok env ft _ _ _ _ _ Hft Ht).
+      * split; [exact Hf|]. cbn [fst snd f_name f_ty]. split; [|apply field_validators_no_anyof].
+        intros ft Hft. apply four_of_ok. apply (field_validators_ok env ft _ _ _ _ _ Hft).
         cbn [top_ok]. destruct ty; try reflexivity; cbn in En; discriminate.
 Qed.
 
@@ -255,7 +348,7 @@ Qed.
 Lemma infos_four infos fs : names_ok fs = true -> (forall i, In i infos -> In (fst (fst i)) fs) -> Forall info_ok infos ->
   forallb (v_four env (ft_struct fs)) (flat_map (fun i : finfo => snd i) infos) = true.
 Proof.
-  intros Hn Hin Hok. induction Hok as [|i r [_ Hi] _ IH]; [reflexivity|]. cbn [flat_map]. rewrite forallb_app.
+  intros Hn Hin Hok. induction Hok as [|i r [_ [Hi _]] _ IH]; [reflexivity|]. cbn [flat_map]. rewrite forallb_app.
   apply andb_true_iff. split.
   - apply Hi. apply ft_struct_self; [exact Hn|]. apply Hin. left; reflexivity.
   - apply IH. intros j Hj. apply Hin. right; exact Hj.
@@ -265,6 +358,13 @@ Lemma reqs_four ft (infos : list finfo) :
   forallb (v_four env ft) (flat_map (fun i : finfo => if snd (fst i) then [VRequired (f_json (fst (fst i)))] else []) infos) = true.
 Proof. induction infos as [|i r IH]; [reflexivity|]. cbn [flat_map]. rewrite forallb_app, IH. destruct (snd (fst i)); reflexivity. Qed.
 
+Lemma infos_no_anyof infos : Forall info_ok infos -> existsb is_anyof (flat_map (fun i : finfo => snd i) infos) = false.
+Proof. induction 1 as [|i r [_ [_ Hi]] _ IH]; [reflexivity|]. cbn [flat_map]. rewrite existsb_app, Hi, IH. reflexivity. Qed.
+
+Lemma reqs_no_anyof (infos : list finfo) :
+  existsb is_anyof (flat_map (fun i : finfo => if snd (fst i) then [VRequired (f_json (fst (fst i)))] else []) infos) = false.
+Proof. induction infos as [|i r IH]; [reflexivity|]. cbn [flat_map]. rewrite existsb_app, IH. destruct (snd (fst i)); reflexivity. Qed.
+
 Lemma build_struct_F s b0 infos t b : Forall info_ok infos -> build_struct s b0 infos = Done (t, b) -> good t.
 Proof.
   intros Hok. unfold build_struct.
@@ -273,11 +373,14 @@ Proof.
   set (fvs := flat_map (fun i : finfo => snd i) infos).
   assert (Hff : fields_F env fields = true) by exact (fields_F_infos infos Hok).
   assert (Hplan : forall extra fa, fields_F env [fa] = true -> forallb (v_four env (ft_struct (fields ++ extra))) [] = true ->
-            forall tail, (forall ft, forallb (v_four env ft) tail = true) ->
+            forall tail, (forall ft, forallb (v_four env ft) tail = true) -> existsb is_anyof tail = false ->
             (extra = [] \/ extra = [fa]) ->
             F (TStruct [] (fields ++ extra) (Some (reqs ++ fvs ++ tail))) = true).
-  { intros extra fa Hfa _ tail Htail Hex. rewrite F_struct, fields_F_app, Hff. cbn [andb].
+  { intros extra fa Hfa _ tail Htail Htn Hex. rewrite F_struct, fields_F_app, Hff. cbn [andb].
     assert (Hfe : fields_F env extra = true) by (destruct Hex as [->| ->]; [reflexivity|exact Hfa]). rewrite Hfe. cbn [andb].
+    assert (Hbr : branches_F env (reqs ++ fvs ++ tail) = true).
+    { apply branches_F_none. rewrite !existsb_app. unfold reqs, fvs. rewrite reqs_no_anyof, (infos_no_anyof infos Hok), Htn. reflexivity. }
+    rewrite Hbr, andb_true_r.
     destruct (names_ok (fields ++ extra)) eqn:Hn; [|reflexivity]. cbn [negb orb].
     rewrite !forallb_app. unfold reqs. rewrite reqs_four, Htail, andb_true_r. cbn [andb].
     apply infos_four; [exact Hn| |exact Hok]. intros i Hi. apply in_or_app. left. apply (List.in_map (fun i : finfo => fst (fst i))). exact Hi. }
@@ -302,24 +405,25 @@ Lemma good_declare scope sub c t b r b' : good t -> declare cf scope sub c (t, b
 Proof.
   intros [Ht Hf]. unfold declare. destruct (is_named_ty t) eqn:En.
   - intros H; inversion H; subst. split; assumption.
-  - assert (Hnamed : forall vs, forallb (v_four env (ft_named t)) vs = true -> forall plan, (plan = None \/ plan = Some vs) -> good (TNamed scope t plan)).
-    { intros vs Hvs plan [->| ->]; (split; [reflexivity|]); cbn [GenWfP.F]; rewrite Hf; [reflexivity|exact Hvs]. }
+  - assert (Hnamed : forall vs, forallb (v_four env (ft_named t)) vs = true -> existsb is_anyof vs = false -> forall plan, (plan = None \/ plan = Some vs) -> good (TNamed scope t plan)).
+    { intros vs Hvs Hna plan [->| ->]; (split; [reflexivity|]); cbn [GenWfP.F]; rewrite Hf; [reflexivity|rewrite Hvs, Hna; reflexivity]. }
     assert (Hprim : top_ok t = true -> forall plan, plan = (if g_only_models cf then None else if false || sub || negb (length (field_validators [] [] c b t false) =? 0) then Some (field_validators [] [] c b t false) else None) ->
                     good (TNamed scope t plan)).
     { intros Htop plan ->. apply (Hnamed (field_validators [] [] c b t false)).
       - apply four_of_ok. apply field_validators_ok; [reflexivity|exact Htop].
+      - apply field_validators_no_anyof.
       - destruct (g_only_models cf); [left; reflexivity|]. destruct (false || sub || negb (length (field_validators [] [] c b t false) =? 0)); [right|left]; reflexivity. }
     destruct t as [| | | | | | |u|inl u|u|n fs plan|n u plan|n c0 w vs|d]; try discriminate;
-      try (intros H; inversion H; subst; first [ apply Hprim; reflexivity | apply (Hnamed []); [reflexivity|left; reflexivity] ]).
-    + (* map *) intros H; inversion H; subst. apply (Hnamed []); [reflexivity|]. destruct (g_only_models cf); [left; reflexivity|]. destruct sub; [right|left]; reflexivity.
+      try (intros H; inversion H; subst; first [ apply Hprim; reflexivity | apply (Hnamed []); [reflexivity|reflexivity|left; reflexivity] ]).
+    + (* map *) intros H; inversion H; subst. apply (Hnamed []); [reflexivity|reflexivity|]. destruct (g_only_models cf); [left; reflexivity|]. destruct sub; [right|left]; reflexivity.
     + (* struct *) destruct n; [|discriminate]. rewrite F_struct in Hf. apply andb_true_iff in Hf. destruct Hf as [Hff Hp].
-      assert (Hs : forall pl, (pl = None \/ (exists vs, pl = Some vs /\ (negb (names_ok fs) || forallb (v_four env (ft_struct fs)) vs = true))) -> good (TStruct scope fs pl)).
+      assert (Hs : forall pl, (pl = None \/ (exists vs, pl = Some vs /\ ((negb (names_ok fs) || forallb (v_four env (ft_struct fs)) vs) && branches_F env vs = true))) -> good (TStruct scope fs pl)).
       { intros pl Hpl. split; [reflexivity|]. rewrite F_struct, Hff. cbn [andb]. destruct Hpl as [->|[vs [-> Hv]]]; [reflexivity|exact Hv]. }
       destruct plan as [vs|]; cbn [orb]; destruct (g_only_models cf).
       * intros H; injection H as <- <-. apply Hs. left; reflexivity.
       * destruct (sub || negb (length vs =? 0)); intros H; injection H as <- <-; apply Hs; [right; exists vs; split; [reflexivity|exact Hp]|left; reflexivity].
       * intros H; injection H as <- <-. apply Hs. left; reflexivity.
-      * destruct (sub || negb (length (@nil validator) =? 0)); intros H; injection H as <- <-; apply Hs; [right; exists []; split; [reflexivity|apply orb_true_r]|left; reflexivity].
+      * destruct (sub || negb (length (@nil validator) =? 0)); intros H; injection H as <- <-; apply Hs; [right; exists []; split; [reflexivity|cbn [forallb branches_F]; rewrite orb_true_r; reflexivity]|left; reflexivity].
 Qed.
 
 Lemma rbind_Done {A B} (r : res A) (g : A -> res B) y : rbind r g = Done y -> exists x, r = Done x /\ g x = Done y.
@@ -335,7 +439,23 @@ Proof.
   - (* generateTypeInline *)
     destruct (c_enum (s_con s)) eqn:Ee; [exact (IH _ _ _ _ _ _ _ H)|].
     destruct (c_ref (s_con s)) eqn:Er; [exact (IH _ _ _ _ _ _ _ H)|].
-    destruct (s_any_of s); [|discriminate].
+    destruct (s_any_of s) as [|a1 ar].
+    2: { (* anyOf: the merged struct with the anyOf validator over the branch types *)
+         destruct (existsb _ (a1 :: ar)); [discriminate|]. destruct (existsb _ (a1 :: ar)); [discriminate|].
+         apply rbind_Done in H. destruct H as [rs [_ H]]. destruct (existsb _ rs); [discriminate|].
+         apply rbind_Done in H. destruct H as [brs [Hb H]].
+         destruct (merge_types rs) as [m|]; [|discriminate].
+         apply rbind_Done in H. destruct H as [[t0 b0'] [Hm H]]. cbn [fst snd] in H.
+         destruct t0 as [| | | | | | |?|? ?|?|name fs plan|? ? ?|? ? ? ?|?]; try discriminate. destruct name as [|ch nm]; [discriminate|].
+         destruct (IH _ _ _ _ _ _ _ Hm) as [_ HF]. inversion H; subst. split; [reflexivity|].
+         rewrite F_struct in HF. apply andb_true_iff in HF. destruct HF as [Hff _]. rewrite F_struct, Hff. cbn [andb].
+         destruct (g_only_models cf); [reflexivity|].
+         cbn [forallb v_four branches_F]. rewrite orb_true_r, !andb_true_r. cbn [andb].
+         apply rmap_Done in Hb. clear -Hb IH.
+         induction Hb as [|ib y l1 l2 Hy _ IHl]; [reflexivity|]. cbn [map list_F]. destruct y as [ty by0]. cbn [fst].
+         assert (Hfy : GenWfP.F env ty = true).
+         { destruct (c_ref (s_con (snd ib))); [inversion Hy; reflexivity|]. destruct (IH _ _ _ _ _ _ _ Hy) as [_ Hfy]. exact Hfy. }
+         rewrite Hfy. exact IHl. }
     destruct (s_all_of s) as [|b1 bs].
     + destruct (c_types (s_con s)) as [|ty0 tys] eqn:Et; [inversion H; subst; exact good_iface|].
       destruct (determine_type (s_con s)) as [tk ptr].
